@@ -1058,7 +1058,14 @@ def make_rot_pair(rng, kx, ky, n, angles, dtype):
     return build(kx, Rx), build(ky, Ry)
 
 
-def check_geodesic(ck, rng, kx, ky, dn, shape):
+GEO_MODES = ("plain", "x-requires-grad", "both-require-grad", "parameter", "no_grad")
+
+
+def check_geodesic(ck, rng, kx, ky, dn, shape, mode="plain"):
+    """`mode`: how the arguments take part in autograd when the loss is evaluated - the value is the same angle."""
+    if mode == "no_grad":
+        with torch.no_grad():
+            return check_geodesic(ck, rng, kx, ky, dn, shape, "no_grad-inner")
     dtype, u = lie.DT[dn], lie.u_of(lie.DT[dn])
     entry = "geodesic_loss"
     lad = np.array(angle_ladder(u))
@@ -1075,7 +1082,14 @@ def check_geodesic(ck, rng, kx, ky, dn, shape):
     xs = pp.LieTensor(x.tensor().reshape(shape + (x.shape[-1],)), ltype=x.ltype)
     ys = pp.LieTensor(y.tensor().reshape(shape + (y.shape[-1],)), ltype=y.ltype)
     reg = f"{kx}-{ky}/{dn}/rank{len(shape)}"
-    wit0 = {"kinds": [kx, ky], "dtype": dn, "batch": list(shape)}
+    wit0 = {"kinds": [kx, ky], "dtype": dn, "batch": list(shape), "autograd_mode": mode}
+    if mode in ("x-requires-grad", "both-require-grad"):
+        xs.requires_grad_(True)
+        if mode == "both-require-grad":
+            ys.requires_grad_(True)
+    elif mode == "parameter":
+        xs = pp.Parameter(xs)
+    ck.mark("geodesic/mode:" + mode)
 
     def wit(i):
         return dict(wit0, x=xd[i].tolist(), y=yd[i].tolist(), ref_angle=float(ref[i]), ref_angle_hex=float(ref[i]).hex())
@@ -1119,7 +1133,7 @@ def check_geodesic(ck, rng, kx, ky, dn, shape):
                          dict(wit0, got=float(r), expected=float(fn(ref)), how=how))
     okn, rn = ck.call("geodesic.reduction", f"{reg}/none-module", "module.GeodesicLoss", lambda: pp.module.GeodesicLoss(reduction="none")(xs, ys), witness=wit0)
     if okn:
-        ck.check(isinstance(rn, torch.Tensor) and tuple(rn.shape) == shape and torch.equal(rn, th), "geodesic.reduction", f"{reg}/none-module",
+        ck.check(isinstance(rn, torch.Tensor) and tuple(rn.shape) == shape and torch.equal(rn.detach(), th.detach()), "geodesic.reduction", f"{reg}/none-module",
                  "module.GeodesicLoss", "module_none_differs_from_function", wit0)
     okd, rd = ck.call("geodesic.reduction", f"{reg}/default", entry, lambda: pp.geodesic_loss(xs, ys), witness=wit0)
     if okd:
@@ -1144,8 +1158,9 @@ def run_geodesic(ck):
                 if not ck.mine(case):
                     continue
                 reps = (6 if thorough else 2) if si == 0 else 1
-                for _ in range(reps):
-                    check_geodesic(ck, rng, kx, ky, dn, shape)
+                for r_ in range(reps):
+                    check_geodesic(ck, rng, kx, ky, dn, shape, GEO_MODES[(case + r_) % len(GEO_MODES)])
+    ck.require(*["geodesic/mode:" + m_ for m_ in GEO_MODES[:4]], "geodesic/mode:no_grad-inner")
     ck.require("geodesic/angle:0", "geodesic/angle:(0,sqrt(u)]", "geodesic/angle:mid", "geodesic/angle:[pi-sqrt(u),pi]")
     ck.floor("geodesic.angle", 1000)
     ck.floor("geodesic.symmetry", 1000)
